@@ -42,7 +42,7 @@ PHASE = {'is_bearable': 'PCheck', 'die_if_unbearable': 'PCheck', 'TypeHint_beara
          'is_subhint_r': 'PDoor', 'TypeHint_eq': 'PDoor', 'decor_param': 'PDecor', 'decor_return': 'PDecor', 'decor_class': 'PDecor',
          'call_param': 'PCall', 'call_return': 'PCall'}
 USER_EXCS = ['UserErr', 'UserTypeErr', 'UserBase', 'TypeError', 'KeyError', 'AttributeError', 'RecursionError', 'StopIteration', 'ValueError']
-WHERES = ['body', 'hook', 'hook_nested', 'hook_union', 'validator', 'validator_nested', 'validator_and', 'isequal']
+WHERES = ['body', 'hook', 'hook_nested', 'hook_union', 'validator', 'validator_nested', 'validator_and', 'isequal', 'repr', 'repr_nested']
 
 
 def typing_names():
@@ -115,7 +115,7 @@ def run(ctx):
                 'resolve / parse, nested and malformed tuples, a class that cannot be instance-checked), 19 special forms, every name '
                 'typing exports, 41 constructors (builtin, typing and collections.abc generics, wrong arities and junk origins through '
                 'types.GenericAlias, Ellipsis misplaced, Literal / Annotated / validators over junk, TypeVar bounds and constraints, '
-                'NewType over junk) x 13 objects x 4 configurations x 12 entry points; user exceptions: 9 classes x 8 places x the entry '
+                'NewType over junk) x 13 objects x 4 configurations x 12 entry points; user exceptions: 9 classes x 10 places (the wrapped body, __instancecheck__, validators, __eq__, and __repr__ of a rejected object) x the entry '
                 'points that reach them; callable_cached: 1-4 keys x 1-10 calls; non-trivial = a hint of depth >= 1, or a user exception '
                 'case, or a memo history with a raising key; distinct = distinct case')
     ctx.assumptions += ['what the typing module itself refuses to build (about 10% of generated subscriptions) is outside the property',
